@@ -8,6 +8,7 @@ import collections
 import hashlib
 import traceback
 
+from sim import graphs as G
 from sim import jobs as J
 from sim import simtasks
 
@@ -22,6 +23,14 @@ class Violation(Exception):
 
 class Spin(BaseException):
     pass
+
+
+class TaskFailed(Exception):
+    """The task body / the runner raised: in the real cluster this is a TaskFailure and the run fails."""
+
+    def __init__(self, task, exc):
+        super().__init__(f"{task}: {exc!r}")
+        self.task, self.exc = task, exc
 
 
 class HostMem:
@@ -40,6 +49,11 @@ class HostMem:
 def gen_plan(rng, opts=None):
     o = dict(nmax=14, hmax=4, wmax=3, max_out=4, exec_pct=30)
     o.update(opts or {})
+    if o.get("graph"):
+        gp = G.gen_graph_plan(rng, o.get("graph_opts"))
+        cluster = dict(hosts=rng.randint(1, 3), wph=rng.randint(1, 2), gpus={})
+        knobs = dict(p_step=rng.choice([20, 50, 80]), batch=rng.choice([1, 2, 4]), reorder_outputs=rng.choice([0, 30, 100]), swap=0, exec="runner")
+        return dict(graph=gp, cluster=cluster, knobs=knobs)
     job = J.gen_job_plan(rng, nmax=o["nmax"], max_out=o["max_out"])
     cluster = J.gen_cluster_plan(rng, job, hmax=o["hmax"], wmax=o["wmax"])
     knobs = dict(p_step=rng.choice([20, 50, 80]), batch=rng.choice([1, 2, 4, 8]),
@@ -207,7 +221,10 @@ class ModelBridge:
                 mem = HostMem(self.store[w.host])
                 ctx = ExecutionContext(tasks={t: self.job.tasks[t]}, param_source={t: {k: (d, "Any") for k, d in self.ps[t].items()}},
                                        callback="", publish=set())
-                runner_run(t, ctx, mem)
+                try:
+                    runner_run(t, ctx, mem)
+                except Exception as e:
+                    raise TaskFailed(t, e)
             else:
                 for o in self.job.tasks[t].definition.output_schema:
                     self.store[w.host][DatasetId(t, o)] = ("val", t, o)
@@ -227,6 +244,10 @@ class ModelBridge:
                 outs = perm
             for o in outs:
                 ds = DatasetId(t, o)
+                if ds not in self.store[w.host]:
+                    # the task ended without ever producing this declared output: nothing is announced for it
+                    self.probes["declared_output_never_produced"] += 1
+                    continue
                 self.produced.add(ds)
                 self.fifo[w.host].append(DatasetPublished(origin=w, ds=ds, transmit_idx=None))
             self._rec("M.run", repr(w), t, tuple(outs))
@@ -297,10 +318,17 @@ def run(plan, ch, want_log=False):
     """One simulated run.  Returns a result dict; never raises for property violations."""
     import cascade.controller.impl as impl
     from cascade.scheduler.graph import precompute
-    jp, cp, knobs = plan["job"], plan["cluster"], plan["knobs"]
-    job = J.build_job(jp)
-    env = J.build_env(cp)
+    cp, knobs = plan["cluster"], plan["knobs"]
     simtasks.reset()
+    ginfo = None
+    if "graph" in plan:
+        job, gref, ginfo = G.materialise(plan["graph"])
+        jp = dict(tasks=[])
+        simtasks.reset()
+    else:
+        jp = plan["job"]
+        job = J.build_job(jp)
+    env = J.build_env(cp)
     b = ModelBridge(ch, job, jp, env, knobs)
     pre = precompute(job)
     cnt = {"n": 0, "calls": -1}
@@ -322,11 +350,21 @@ def run(plan, ch, want_log=False):
         st = impl.run(job, b, pre)
         if set(st.outputs) != set(job.ext_outputs):
             viol.append(("C01", "wrong_output_keys", (sorted(map(repr, st.outputs)), sorted(map(repr, job.ext_outputs))), {}))
-        if knobs["exec"] == "runner":
+        if ginfo is not None:
+            ref = gref
+            gsig = dict(unsorted_declared=bool(ginfo["unsorted_declared"]), dup_input_arg=bool(ginfo["dup_input_arg"]), max_outputs=ginfo["max_outputs"])
+            if ginfo["expect_failure"]:
+                viol.append(("C10", "count_mismatch_not_reported", ginfo["failed"], gsig))
+        elif knobs["exec"] == "runner":
             ref = J.refeval_plan(jp)
         for ds, v in st.outputs.items():
             if v is None:
                 viol.append(("C01", "missing_output", repr(ds), {}))
+            elif ginfo is not None:
+                if (ds.task, ds.output) in ref and v != ref[(ds.task, ds.output)]:
+                    viol.append(("C10", "value_differs_from_graph_evaluation", (repr(ds), v, ref[(ds.task, ds.output)]),
+                                 dict(gsig, node_unsorted=ds.task in ginfo["unsorted_declared"] or any(t in ginfo["unsorted_declared"] for t in _ancestors(job, ds.task)),
+                                      node_dup_arg=ds.task in ginfo["dup_input_arg"] or any(t in ginfo["dup_input_arg"] for t in _ancestors(job, ds.task)))))
             elif knobs["exec"] == "runner" and v != ref[(ds.task, ds.output)]:
                 viol.append(("C01", "wrong_value", (repr(ds), v, ref[(ds.task, ds.output)]), {}))
             elif knobs["exec"] == "model" and v != ("val", ds.task, ds.output):
@@ -345,8 +383,16 @@ def run(plan, ch, want_log=False):
             viol.append(("C03", "unbounded_recommanding", (b.n_tx, b.n_fetch, D, H, R), {}))
         if b.pending:
             b.probes["finished_with_commands_unanswered"] += 1
+    except TaskFailed as e:
+        if ginfo is not None and ginfo["expect_failure"]:
+            b.probes["count_mismatch_reported_as_task_failure"] += 1
+        else:
+            viol.append(("C10" if ginfo is not None else "C01", "task_failed", (e.task, repr(e.exc)[:200]), {}))
     except Violation as v:
         viol.append((v.prop, v.cls, v.detail, v.sig))
+        if ginfo is not None and ginfo["expect_failure"] and v.cls == "wait_with_nothing_outstanding":
+            # a generator that did not yield what its node declares was not reported: the controller waits for ever for the missing output
+            viol.append(("C10", "count_mismatch_not_reported", (ginfo["failed"], v.detail), {}))
         if b.shutdown_calls != 1:
             b.probes["no_shutdown_after_violation"] += 1
     except Spin:
@@ -361,13 +407,16 @@ def run(plan, ch, want_log=False):
             viol.append(("C03", "no_shutdown_after_error", b.shutdown_calls, {}))
     finally:
         impl.has_computable = orig
+    if ginfo is not None:
+        for cls, detail in ginfo["structural"]:
+            viol.append(("C10", cls, detail, dict(dup_input_arg=bool(ginfo["dup_input_arg"]))))
     multi_comp = len({t["comp"] for t in jp["tasks"]}) > 1
     nontrivial = dict(
         C01=len(job.tasks) >= 2 and bool(job.ext_outputs) and b.n_tx + b.n_fetch > 0,
         C02=b.probes["dispatch_while_input_in_transfer"] > 0,
         C03=multi_comp or len(job.tasks) >= 6,
         C04=b.n_tx > 0 and b.probes["purge"] > 0,
-        C10=any(t["nout"] > 1 for t in jp["tasks"]) or any(e[2] == "ps" for t in jp["tasks"] for e in t["inputs"]),
+        C10=(ginfo is not None and (ginfo["max_outputs"] > 1 or bool(job.edges))),
     )
     res = dict(harness=NAME, viol=[dict(prop=p, cls=c, detail=repr(d)[:400], sig=s) for p, c, d, s in viol],
                probes=dict(b.probes), fired={}, digest=b.h.hexdigest()[:16], steps=b.calls, simtime=0.0,
@@ -379,8 +428,29 @@ def run(plan, ch, want_log=False):
     return res
 
 
+def _ancestors(job, task):
+    seen, todo = set(), [task]
+    while todo:
+        t = todo.pop()
+        for e in job.edges:
+            if e.sink_task == t and e.source.task not in seen:
+                seen.add(e.source.task)
+                todo.append(e.source.task)
+    return seen
+
+
 def shrink_candidates(plan):
     import copy
+    if "graph" in plan:
+        for gp in G.shrink_graph_candidates(plan["graph"]):
+            c = copy.deepcopy(plan)
+            c["graph"] = gp
+            yield c
+        for cp in J.shrink_cluster_candidates(plan["cluster"]):
+            c = copy.deepcopy(plan)
+            c["cluster"] = cp
+            yield c
+        return
     for jp in J.shrink_job_candidates(plan["job"]):
         c = copy.deepcopy(plan)
         c["job"] = jp
@@ -400,5 +470,7 @@ def shrink_candidates(plan):
 
 
 def sample(plan):
+    if "graph" in plan:
+        return plan
     return dict(tasks=[(t["name"], t["nout"], [tuple(e) for e in t["inputs"]]) for t in plan["job"]["tasks"]][:8],
                 ext=plan["job"]["ext"], cluster=plan["cluster"], knobs=plan["knobs"])
